@@ -194,12 +194,14 @@ class Report:
                 self.violations.append((o["id"], path, True))
         # filter violations that are known findings
         vio = [v for v in self.violations if not self.known.match(self.pid, v[0])]
-        seen = set()
+        byf = {}
         for oid, txt in self.known_hit:
-            if (oid, txt) in seen:
-                continue
-            seen.add((oid, txt))
-            print("KNOWN-FINDING: property=%s %s [%s]" % (self.pid, txt, oid))
+            byf.setdefault(txt, [])
+            if oid not in byf[txt]:
+                byf[txt].append(oid)
+        for txt, oids in byf.items():
+            print("KNOWN-FINDING: property=%s %s [%d failing obligation(s): %s%s]" %
+                  (self.pid, txt, len(oids), ", ".join(oids[:3]), ", ..." if len(oids) > 3 else ""))
         for oid, path, nofail in vio:
             print("VIOLATION property=%s replay=%s obligation=%s%s" %
                   (self.pid, path, oid, " no-failing-input-found" if nofail else ""))
@@ -224,6 +226,7 @@ class Report:
             vacuity_checks=self.vacuity[:40],
             solver_seconds=round(self.solver_seconds, 2),
             known_findings_matched=[dict(obligation=a, finding=b) for a, b in self.known_hit],
+            obligation_log=[[o["id"], o["status"], o["seconds"], o["backend"]] for o in self.obl],
             repo_head=repo_head(),
             explanation=explanation or "contract obligations generated from /repo's working tree on this run; "
                                         "every obligation is a CBMC property result (DFCC contract instrumentation) or an SMT query; see DESIGN.md",
